@@ -4,7 +4,7 @@ from vlib import fmt_list
 PID = 'C15'
 RULE = ('write_eci/read_eci: every boundary of the three designator forms, a stride over 0..999999 (all 1,000,000 in the '
         'thorough tier), numbers above the range; read_eci on all 1-byte and sampled 2-/3-byte sequences incl. every '
-        'malformed class; decode_str on [241, designator, payload] for all 256 payload bytes x ECI 0,3,11,13,26,27 and other '
+        'malformed class; designators in mid stream after bytes in the default interpretation (every pair of supported sets); decode_str on [241, designator, payload] for all 256 payload bytes x ECI 0,3,11,13,26,27 and other '
         'ECI numbers (exhaustive), and on payloads of 16..64 bytes (to 256 thorough) with one byte of another kind at the block borders; '
         'UTF-8 validation on structured valid/invalid sequences and on long sections (250..2050 bytes, up to 8200 thorough) of mixed character widths; non-trivial = accepted designator '
         'or printable payload')
@@ -89,6 +89,22 @@ def gen_cases(rng, tier, ctx):
             for v in variants:
                 cs.append({'line': 'decode_str %s' % fmt_list([241] + designator(e) + [x for b in v for x in payload(b)]),
                            'cat': 'charset-long', 'eci': e, 'bytes': v})
+    # designators in mid stream: bytes in the default interpretation first (also bytes that read differently in the designated
+    # set), then one or two designators with payloads; every pair of supported sets
+    sample = {None: [0x41, 0xD0, 0xDD, 0xFE, 0xA1, 0xE9, 0x7E, 0x20], 0: [0x41, 0xD0, 0xE9], 3: [0x42, 0xD0, 0xFD, 0xA0],
+              11: [0x43, 0xD0, 0xDD, 0xDE, 0xF0, 0xFD, 0xFE, 0xE9], 13: [0x44, 0xA1, 0xDA, 0xDF, 0xFB, 0xE9],
+              26: [0x45, 0xC3, 0xA9, 0xE2, 0x82, 0xAC], 27: [0x46, 0x7E, 0x20]}
+    for e1 in (0, 3, 11, 13, 26, 27):
+        for e2 in (None, 3, 11, 13, 26, 27):
+            for first in ([], sample[None][:1], sample[None], [rng.choice(sample[None]) for _ in range(rng.range(1, 5))]):
+                segs = [(None, list(first)), (e1, list(sample[e1]))] + ([(e2, list(sample[e2]))] if e2 is not None else [])
+                cw = [241] + designator(0)[:0]
+                cw = []
+                for e, bs in segs:
+                    if e is not None:
+                        cw += [241] + designator(e)
+                    cw += [x for b in bs for x in payload(b)]
+                cs.append({'line': 'decode_str %s' % fmt_list(cw), 'cat': 'eci-midstream', 'segs': segs})
     # ECI switches in mid stream, decode_data must refuse ECI
     cs.append({'line': 'decode_data 66,241,27,67', 'cat': 'raw-eci'})
     cs.append({'line': 'decode_str 66,241,12,235,113,241,14,235,34,241,27,67', 'cat': 'multi-eci'})
@@ -177,6 +193,22 @@ def check_impl(c, out, ctx, prof):
         if want is None:
             return None if out == 'err CharsetError' else 'ECI %d byte 0x%02X: %s, should be CharsetError' % (e, b, out)
         return None if out == 'ok %d' % want else 'ECI %d byte 0x%02X decoded as %s, the character set says U+%04X' % (e, b, out, want)
+    if c['cat'] == 'eci-midstream':
+        res = []
+        for e, bs in c['segs']:
+            if e == 26:
+                try:
+                    res += [ord(ch) for ch in bytes(bs).decode('utf-8')]
+                except UnicodeDecodeError:
+                    res = None
+            else:
+                table = {None: iso1, 0: iso1, 3: iso1, 11: iso9, 13: iso11, 27: lambda x: x if x < 128 else None}[e]
+                m = [table(b) for b in bs]
+                res = None if None in m else res + m
+            if res is None:
+                break
+        want = 'err CharsetError' if res is None else 'ok ' + (fmt_list(res) if res else '-')
+        return None if out == want else 'segments %s: %s, the character sets say %s' % (c['segs'], out[:60], want[:60])
     if c['cat'] == 'charset-long':
         e, bs = c['eci'], c['bytes']
         if e == 26:
